@@ -159,7 +159,7 @@ func cmdCheck(args []string) int {
 		}
 	}
 	sort.Strings(names)
-	timeout := 15
+	timeout := 20
 	if *tier == "thorough" {
 		timeout = 60
 	}
